@@ -160,7 +160,10 @@ func groupKind(r oracle.Rules, email string, memberOf []string) tri {
 					// a membership literally named "" / " " / "*" is not what the statement talks about
 					return dontCare
 				}
-				if !hasOuterSpace(g) {
+				if !hasOuterSpace(g) && !strings.Contains(g, ",") {
+					// (a name containing a comma cannot be asked about: the authenticator's /profile splits the
+					// `groups` parameter on commas - internal/auth/authenticator.go GetProfile - so a membership
+					// that exists only through such an entry is a dont-care)
 					solid = true
 				}
 			}
